@@ -13,8 +13,8 @@ var Entries = map[string]func(){}
 
 // shape picks the channel count and capacity in frames within the tier bounds (case split).
 func shape() (C, K int) {
-	C = vf.Concretize(vf.IntRange("C", 1, vf.Param("MaxC", 3)))
-	K = vf.Concretize(vf.IntRange("K", 0, vf.Param("MaxK", 3)))
+	C = vf.Pick("C", 1, vf.Param("MaxC", 3))
+	K = vf.Pick("K", 0, vf.Param("MaxK", 3))
 	return
 }
 
@@ -29,8 +29,8 @@ func allocAny[T signal.SignalTypes](C, K int, name string) *signal.Buffer[T] {
 
 // window picks frames [s,e) of a K-frame buffer (case split).
 func window(name string, K int) (s, e int) {
-	s = vf.Concretize(vf.IntRange(name+".s", 0, K))
-	e = vf.Concretize(vf.IntRange(name+".e", s, K))
+	s = vf.Pick(name+".s", 0, K)
+	e = vf.Pick(name+".e", s, K)
 	return
 }
 
